@@ -17,7 +17,16 @@
                         placeholders resolve to the installed location; installed flag of targets; after a
                         real `meson install --destdir` the tree is exactly the promised one; vs definition;
    intro-buildsystem_files.json  files exist, contain every defined_in, equal the inputs of the build.ninja
-                        regeneration statement, and equal what the abstract project makes meson read.
+                        regeneration statement, equal what the abstract project makes meson read, and equal the
+                        build-definition files meson opens (strace of an identical second configuration).
+   Both directions for targets (every output of a link / archive statement is an introspected `filename`; what
+   `meson test <selection>` asks the backend to build exists and covers the selected tests' depends) and for
+   installation (everything that lands under DESTDIR is promised by the plan; `install_filename`; symbolic links).
+3. (A) TLC model-checks ``specs/ninja/IntroSpace_MC`` (rule book ``IntroRules``): every build target kind x
+   name_prefix / name_suffix form x version x soversion, and every install rule kind x spelling of the directory
+   (default, literal, get_option(), `/`, join_paths(), prefix + '...') x main / subproject, under several option
+   valuations; it assembles the rows into projects (rotating location, build_subdir, installed) that are
+   configured and installed for real (``harness/c15_space.py``).
    Projects: seeded random C projects (projgen, ninja backend, all target kinds, subprojects, layouts,
    default_library, unity), language-less data projects (``--backend=none``: real install and real test
    run), projects of the TLC family, and the projects of ``test cases/common`` that configure here.
@@ -26,11 +35,13 @@ from __future__ import annotations
 
 import json
 import random
+import shutil
 import sys
 import typing as T
 from concurrent.futures import ProcessPoolExecutor
 
 from . import backend_views as bv
+from . import c15_space as sp15
 from . import common, projgen
 from .common import Check, MachineryError, SPECS, run_tlc
 
@@ -38,13 +49,33 @@ PROP = 'C15'
 
 
 def _run_job(job: T.Dict[str, T.Any]) -> T.Dict[str, T.Any]:
+    if job.get('p') is not None:
+        sp15.render(job['p'])       # C15 fields (naming keywords, directory expressions) -> verbatim keyword arguments
+    if job.get('files') is not None:
+        # a literal source tree (probe projects outside projgen's abstract model), judged by the relational clauses only
+        with common.scratch('tree-') as d:
+            for rel, text in job['files'].items():
+                f = d / 'src' / rel
+                f.parent.mkdir(parents=True, exist_ok=True)
+                f.write_text(text, encoding='utf-8')
+            case = bv.run_case(dict(job, srcdir=str(d / 'src')))
+        case['info']['files'] = job['files']
+        case['info']['job'] = {k: job[k] for k in ('backend', 'extra_args', 'trace_reads', 'timeout', 'install', 'ask_rebuild')
+                               if k in job}
+        for k in ('name', 'tag', 'flavour'):
+            if k in job:
+                case['info'][k] = job[k]
+        return case
     case = bv.run_case(job)
+    if job.get('p') is not None:
+        sp15.tlc_fields(case['p'], job['p'])
     for k in ('name', 'tag', 'flavour'):
         if k in job:
             case['info'][k] = job[k]
     if job.get('p') is not None:
         case['info']['p_full'] = job['p']
-        case['info']['job'] = {k: job[k] for k in ('backend', 'install', 'run_tests', 'extra_args') if k in job}
+        case['info']['job'] = {k: job[k] for k in ('backend', 'install', 'run_tests', 'extra_args', 'ask_rebuild', 'timeout',
+                                                   'trace_reads') if k in job}
     return case
 
 
@@ -75,12 +106,50 @@ def option_overrides(p: T.Dict[str, T.Any], rnd: random.Random) -> T.List[str]:
             if name not in p['show_builtins']:
                 p['show_builtins'].append(name)
             args.append(f'-D{name}={val}')
-    if any(t['sp'] for t in p['targets']) and p['lang'] and rnd.random() < 0.5:
-        sp = next(t['sp'] for t in p['targets'] if t['sp'])
-        if 'werror' not in p['show_builtins']:
-            p['show_builtins'].append('werror')
-        args.append(f'-D{sp}:werror=' + rnd.choice(['true', 'false']))
+    sps = sorted({x['sp'] for coll in (p['targets'], p['tests'], p['installs'], p['options']) for x in coll if x['sp']})
+    if sps and rnd.random() < 0.5:
+        # a value for one subproject only (-Dsub:name=value): get_option() in that subproject returns it
+        sp = sps[0]
+        # (default_library of a subproject only where nothing is built: the generator model has one default_library)
+        name, val = rnd.choice([('werror', 'true'), ('werror', 'false'), ('warning_level', '2')]
+                               + ([] if p['lang'] else [('default_library', 'static')]))
+        if name not in p['show_builtins']:
+            p['show_builtins'].append(name)
+        args.append(f'-D{sp}:{name}={val}')
     return args
+
+
+def yielding_options(p: T.Dict[str, T.Any], rnd: random.Random) -> None:
+    """Make some subproject options `yield: true` with a same-named option of the same type (other default value) in
+    the main project (Build-options.md "Yielding to superproject option"); a project with a subproject but without
+    subproject options gets one such pair."""
+    sps = sorted({x['sp'] for coll in (p['targets'], p['tests'], p['installs'], p['options']) for x in coll if x['sp']})
+    if not sps:
+        return
+    if not any(o['sp'] for o in p['options']) and rnd.random() < 0.7:
+        p['options'].append(dict(projgen.OPTION_DEFAULTS, name='yopt', type='string', value='from-sub', sp=sps[0], choices=[]))
+    top = {o['name'] for o in p['options'] if not o['sp']}
+    for o in list(p['options']):
+        if not o['sp'] or o['name'] in top or rnd.random() < 0.4:
+            continue
+        o['yield'] = True
+        q = dict(o, sp='', choices=list(o['choices']))
+        q['yield'] = False
+        ty = o['type']
+        if ty == 'boolean':
+            q['value'] = 'false' if o['value'] == 'true' else 'true'
+        elif ty == 'integer':
+            q['value'] = str(int(o['value']) + 7)
+        elif ty == 'combo':
+            q['value'] = [c for c in o['choices'] if c != o['value']][0]
+        elif ty == 'array':
+            q['value'] = ['top'] if list(o['value']) != ['top'] else []
+        elif ty == 'feature':
+            q['value'] = [c for c in ('enabled', 'disabled', 'auto') if c != o['value']][0]
+        else:
+            q['value'] = 'top-' + str(o['value'])
+        p['options'].append(q)
+        top.add(o['name'])
 
 
 def subdir_matrix_project() -> T.Dict[str, T.Any]:
@@ -104,7 +173,7 @@ def subdir_matrix_project() -> T.Dict[str, T.Any]:
                     it['install_dir'] = '{%s}/x%d' % (opt, k)
                     it['dir_expr'] = f"get_option('{opt}') / 'x{k}'"
                 installs.append(it)
-    return projgen.normalize({'name': 'sdm', 'lang': '', 'installs': installs})
+    return projgen.normalize({'name': 'sdm', 'lang': '', 'installs': installs, 'model_tree': True})
 
 
 def preserve_path_project() -> T.Dict[str, T.Any]:
@@ -127,7 +196,7 @@ def preserve_path_project() -> T.Dict[str, T.Any]:
                     # install_headers shows an option-derived directory without its placeholder (manual silent)
                     it['install_dir'] = f'include/demo-tree{k}'
                 installs.append(it)
-    return projgen.normalize({'name': 'ppm', 'lang': '', 'installs': installs})
+    return projgen.normalize({'name': 'ppm', 'lang': '', 'installs': installs, 'model_tree': True})
 
 
 def build_subdir_project(layout: str) -> T.Dict[str, T.Any]:
@@ -145,12 +214,97 @@ def build_subdir_project(layout: str) -> T.Dict[str, T.Any]:
                               'tests': [{'name': 't', 'exe': 3, 'depends': [6]}]})
 
 
+OPTSUB_MODES = ('error', 'version', 'mesonver', 'nested', 'late')
+
+
+def optional_subproject_probe(rnd: random.Random, k: int) -> T.Dict[str, T.Any]:
+    """A language-less project with subproject(..., required: false) calls that FAIL in different ways after having
+    read some of their build files (error() after subdir(), version: mismatch found after the whole subproject ran,
+    meson_version refused by project(), a nested required subproject that fails, a failure after an option file was
+    read), next to subprojects that work.  Judged by the relational clauses (BuildFilesVsRead: strace)."""
+    modes = sorted(rnd.sample(OPTSUB_MODES, rnd.randint(1, len(OPTSUB_MODES))))
+    files: T.Dict[str, str] = {}
+    main = ["project('optsub', version: '1.0', meson_version: '>=1.3.0')", "subproject('good_first')"]
+    files['meson.options'] = "option('top_opt', type: 'string', value: 'x')\n"
+    files['subprojects/good_first/meson.build'] = "project('good_first', version: '2.0')\nsubdir('d')\n"
+    files['subprojects/good_first/d/meson.build'] = "message('good_first/d')\n"
+    for m in modes:
+        name = 'fail_' + m
+        d = f'subprojects/{name}'
+        kw = ", version: '>=9'" if m == 'version' else ''
+        main.append(f"subproject('{name}', required: false{kw})")
+        if m == 'error':
+            files[f'{d}/meson.build'] = f"project('{name}')\nsubdir('inner')\nerror('deliberate')\nsubdir('never')\n"
+            files[f'{d}/inner/meson.build'] = "message('inner')\n"
+            files[f'{d}/never/meson.build'] = "message('never read')\n"
+        elif m == 'version':
+            files[f'{d}/meson.build'] = f"project('{name}', version: '1.0')\nsubdir('inner')\n"
+            files[f'{d}/inner/meson.build'] = "message('inner')\n"
+            files[f'{d}/meson.options'] = "option('vo', type: 'boolean', value: true)\n"
+        elif m == 'mesonver':
+            files[f'{d}/meson.build'] = f"project('{name}', meson_version: '>=99.0')\n"
+            files[f'{d}/meson.options'] = "option('mo', type: 'boolean', value: true)\n"
+        elif m == 'nested':
+            files[f'{d}/meson.build'] = f"project('{name}')\nsubproject('fail_inner')\n"
+            files['subprojects/fail_inner/meson.build'] = "project('fail_inner')\nsubdir('deep')\nerror('inner failure')\n"
+            files['subprojects/fail_inner/deep/meson.build'] = "message('deep')\n"
+        else:
+            files[f'{d}/meson.build'] = f"project('{name}')\nx = get_option('lo')\nsubdir('a')\nsubdir('b')\nassert(false, 'late')\n"
+            files[f'{d}/meson_options.txt'] = "option('lo', type: 'string', value: 'v')\n"
+            files[f'{d}/a/meson.build'] = "subdir('aa')\n"
+            files[f'{d}/a/aa/meson.build'] = "message('aa')\n"
+            files[f'{d}/b/meson.build'] = "message('b')\n"
+    main.append("subproject('good_last')")
+    files['subprojects/good_last/meson.build'] = "project('good_last')\n"
+    files['subprojects/unused/meson.build'] = "project('unused')\n"
+    files['meson.build'] = '\n'.join(main) + '\n'
+    return {'id': f'O{k}', 'kind': 'corpus', 'p': None, 'files': files, 'views': True, 'trace_reads': True,
+            'name': 'optional-subprojects:' + '+'.join(modes), 'tag': 'optional-subprojects:' + '+'.join(modes)}
+
+
+def same_name_installed_project() -> T.Dict[str, T.Any]:
+    """Installed targets that produce files of the SAME NAME in different directories (layout=mirror), installed to
+    different places: two custom targets, two executables, a versioned shared library next to an unversioned one
+    of the same name."""
+    d = sp15.expr
+    ts = [
+        {'kind': 'custom', 'name': 'gen', 'outs': ['data.dat'], 'install': True, 'idirs': [d('slash', sp15.lit('share/one'))]},
+        {'kind': 'exe', 'name': 'tool', 'srcs': ['m1.c'], 'install': True},
+        {'kind': 'shared', 'name': 'dup', 'srcs': ['l1.c'], 'install': True, 'ver': '1.2.3'},
+        {'kind': 'custom', 'name': 'gen', 'subdir': 'sub', 'outs': ['data.dat', 'other.dat'], 'install': True,
+         'idirs': [d('slash', sp15.opt('datadir'), sp15.lit('two')), d('slash', sp15.lit('share/three'))]},
+        {'kind': 'exe', 'name': 'tool', 'subdir': 'sub', 'srcs': ['m2.c'], 'install': True,
+         'idir': d('slash', sp15.opt('libexecdir'), sp15.lit('helpers'))},
+        # (unversioned: intro-installed.json lists symbolic links by their name, two `libdup.so` aliases cannot both appear)
+        {'kind': 'shared', 'name': 'dup', 'subdir': 'sub', 'srcs': ['l2.c'], 'install': True,
+         'idir': d('slash', sp15.opt('libdir'), sp15.lit('private'))},
+    ]
+    return projgen.normalize({'name': 'samename', 'layout': 'mirror', 'deflib': 'shared', 'targets': ts, 'model_tree': True})
+
+
+def jar_probe(layout: str) -> T.Dict[str, T.Any]:
+    """jar() targets (root, subdirectory with build_subdir:, one with its own install_dir), as a literal tree."""
+    files = {
+        'meson.build': "project('jars', 'java', version: '1.0')\nj1 = jar('app', 'Main.java', main_class: 'Main', install: true)\n"
+                       "subdir('sub')\ntest('t1', j1)\ntest('t2', j2, depends: j1)\ntest('t3', j3, depends: [j1, j2])\n",
+        'sub/meson.build': "j2 = jar('lib-x', 'com/x/Lib.java', build_subdir: 'jars', install: true, "
+                           "install_dir: get_option('libexecdir') / 'jars')\n"
+                           "j3 = jar('other', 'Other.java', main_class: 'Other', install: true, install_dir: 'opt/j')\n",
+        'Main.java': 'class Main { public static void main(String[] a) {} }\n',
+        'sub/com/x/Lib.java': 'package com.x;\npublic class Lib { public static void main(String[] a) {} }\n',
+        'sub/Other.java': 'class Other { public static void main(String[] a) {} }\n',
+    }
+    return {'id': f'J-{layout}', 'kind': 'corpus', 'p': None, 'files': files, 'views': True, 'install': True, 'ask_rebuild': True,
+            'name': f'jar-targets-{layout}', 'extra_args': [f'-Dlayout={layout}', '--prefix=/usr/zz', '-Ddatadir=share/dd'],
+            'timeout': 900}
+
+
 def to_trace(case: T.Dict[str, T.Any]) -> T.Dict[str, T.Any]:
     v = case['views']
     d = {'id': case['id'], 'p': case['p'], 'has_p': case['kind'] == 'proj', 'M': v['M']}
     for k in ('targets', 'tests', 'benchmarks', 'tests_dat', 'benchmarks_dat', 'options', 'messages', 'dirs', 'plan',
               'installed', 'dat', 'dir_listing', 'did_install', 'tree', 'did_test', 'runs', 'bsfiles', 'bs_missing',
-              'has_ninja', 'regen_inputs'):
+              'has_ninja', 'regen_inputs', 'requests', 'dat_links', 'dat_empty', 'did_trace', 'read_files', 'read_bsfiles'):
         d[k] = v[k]
     return d
 
@@ -192,6 +346,20 @@ def custom_source_causes(case: T.Dict[str, T.Any], items: T.List[str]) -> T.Opti
 def signature(case: T.Dict[str, T.Any], v: T.Dict[str, T.Any]) -> str:
     what = case['info'].get('name') or case['info'].get('flavour', '')
     det = '|'.join(sorted(str(x) for x in v['detail'])[:3])[:200]
+    if v['clause'] == 'OptionsVsGetOption' and v.get('category'):
+        return f"OptionsVsGetOption:{v['category']}"
+    if v['clause'] == 'InstallFilename' and v['detail']:
+        # normalised cause: every offending location is that of a file whose NAME is installed from two targets
+        names = [x['src'].rsplit('/', 1)[-1] for x in case['views']['plan'] if x['section'] == 'targets'] \
+            + [a[len('@name/'):] for a, _ in case['views']['installed'] if a.startswith('@name/')]
+        if all(names.count(str(x).rsplit('/', 1)[-1]) > 1 for x in v['detail']):
+            return 'InstallFilename:same-file-name-installed-from-two-targets'
+    if v['clause'] == 'BuildFilesVsRead' and case['info'].get('files') is not None:
+        # normalised cause: the failing optional subprojects whose files are concerned
+        # (every offending file was read but is not listed, and lies in a subproject that failed and was disabled)
+        read = set(case['views']['read_files'])
+        if all(str(x).startswith('subprojects/fail_') and x in read for x in v['detail']):
+            return 'BuildFilesVsRead:files-of-failed-optional-subproject-read-but-not-listed'
     if case['info'].get('tag'):
         # dedicated probe project (fixed input): the clause identifies the finding
         return f"{v['clause']}@{case['info']['tag']}"
@@ -209,6 +377,20 @@ def signature(case: T.Dict[str, T.Any], v: T.Dict[str, T.Any]) -> str:
             return f"CustomTargetSources:{cause}"
     # normalise scratch paths out of the detail
     return f"{v['clause']}@{what}:{det}"
+
+
+def report(chk: Check, c: T.Dict[str, T.Any], vv: T.Dict[str, T.Any]) -> None:
+    for b in vv['bad']:
+        groups: T.Dict[str, T.List[str]] = {}
+        if b['clause'] == 'OptionsVsGetOption':
+            # one violation per kind of disagreement (the kind is computed by the judge: IntroConsistent.OptCategory)
+            for item in b['detail']:
+                groups.setdefault(str(item).split('|', 1)[0], []).append(item)
+        else:
+            groups[''] = b['detail']
+        for cat, items in sorted(groups.items()):
+            v = {'id': vv['id'], 'clause': b['clause'], 'detail': items, 'category': cat}
+            chk.violation(signature(c, v), {'verdict': v, 'kind': c['kind'], 'info': c['info'], 'project': c['p']})
 
 
 def model_check(chk: Check, quick: bool) -> T.Dict[str, T.Any]:
@@ -234,26 +416,46 @@ def main(chk: Check) -> None:
                 'family and test cases/common. Non-trivial = a configured project whose views hold at least 3 targets or an '
                 'install plan entry or a test (distinct by abstract project / corpus directory).')
     jobs: T.List[T.Dict[str, T.Any]] = []
+    # the naming / install space TLC enumerates, checks and assembles into projects (binding A)
+    space = sp15.model_check(chk, [chk.seed % 6] if quick else [0, 1, 2, 3, 4, 5])
+    chk.extra['space'] = space['counts']
+    jobs += sp15.space_jobs(space, quick, chk.seed)
     for k in range(n_c):
         r2 = random.Random(chk.seed * 104729 + k)
         p = projgen.random_project(r2, n_targets=r2.randint(3, 12), custom_inputs=True, alias_runs=True, build_subdirs=True)
         pre = r2.choice(['/usr/local', '/usr', '/opt/p q'])
-        jobs.append({'id': f'R{k}', 'kind': 'proj', 'p': p, 'views': True, 'flavour': f'randomC#{k}',
+        sp15.fill(p)
+        sp15.decorate_targets(p, random.Random(chk.seed * 7919 + k))
+        yielding_options(p, random.Random(chk.seed * 7933 + k))
+        p['model_tree'] = True
+        jobs.append({'id': f'R{k}', 'kind': 'proj', 'p': p, 'views': True, 'flavour': f'randomC#{k}', 'install': True,
+                     'ask_rebuild': True,
                      'extra_args': [f'--prefix={pre}'] + r2.choice([[], ['--libdir=lib'], ['--bindir=/abs/bin']])
                      + option_overrides(p, r2)})
     for k in range(n_data):
         r2 = random.Random(chk.seed * 15485863 + k)
         p = projgen.random_data_project(r2)
         pre = r2.choice(['/usr/local', '/usr', '/opt/p q'])
+        sp15.fill(p)
+        sp15.decorate_installs(p, random.Random(chk.seed * 7927 + k))
+        yielding_options(p, random.Random(chk.seed * 7937 + k))
+        p['model_tree'] = True
         jobs.append({'id': f'D{k}', 'kind': 'proj', 'p': p, 'views': True, 'backend': 'none', 'install': True,
-                     'run_tests': True, 'flavour': f'data#{k}', 'extra_args': [f'--prefix={pre}'] + option_overrides(p, r2)})
+                     'run_tests': True, 'flavour': f'data#{k}', 'extra_args': [f'--prefix={pre}'] + option_overrides(p, r2),
+                     'trace_reads': k % 4 == 0})
     jobs.append({'id': 'S0', 'kind': 'proj', 'p': subdir_matrix_project(), 'views': True, 'backend': 'none', 'install': True,
                  'run_tests': False, 'flavour': 'install_subdir-matrix', 'extra_args': ['--prefix=/usr/zz', '-Ddatadir=share/dd']})
     jobs.append({'id': 'S2', 'kind': 'proj', 'p': build_subdir_project('mirror'), 'views': True, 'flavour': 'build_subdir-mirror'})
     jobs.append({'id': 'S3', 'kind': 'proj', 'p': build_subdir_project('flat'), 'views': True, 'flavour': 'build_subdir-flat',
                  'tag': 'flat-layout-with-build_subdir'})
+    jobs.append({'id': 'S4', 'kind': 'proj', 'p': same_name_installed_project(), 'views': True, 'install': True,
+                 'flavour': 'same-name-installed', 'extra_args': ['--prefix=/usr/zz']})
     jobs.append({'id': 'S1', 'kind': 'proj', 'p': preserve_path_project(), 'views': True, 'backend': 'none', 'install': True,
                  'run_tests': False, 'flavour': 'preserve_path-matrix', 'extra_args': ['--prefix=/usr/zz']})
+    for k in range(2 if quick else 12):
+        jobs.append(optional_subproject_probe(random.Random(chk.seed * 7949 + k), k))
+    if shutil.which('javac'):
+        jobs += [jar_probe(lay) for lay in (('mirror', 'flat') if not quick else (('mirror', 'flat')[chk.seed % 2],))]
     dirs = bv.corpus_dirs()
     if len(dirs) > n_corpus:
         dirs = sorted(rnd.sample(dirs, n_corpus))
@@ -285,6 +487,8 @@ def main(chk: Check) -> None:
     chk.extra['corpus_configured'] = sum(1 for c in configured if c['kind'] == 'corpus')
     chk.extra['corpus_skipped_not_configurable_here'] = sum(1 for c in cases if c['kind'] == 'corpus' and not c['configured'])
     chk.extra['installs_run'] = sum(1 for c in configured if c['views']['did_install'])
+    chk.extra['rebuild_requests_observed'] = sum(len(c['views']['requests']) for c in configured)
+    chk.extra['setups_traced'] = sum(1 for c in configured if c['views'].get('did_trace'))
     chk.extra['test_runs_observed'] = sum(len(c['views']['runs']) for c in configured)
     for c in configured:
         v = c['views']
@@ -303,10 +507,7 @@ def main(chk: Check) -> None:
     bad = bv.judge_cases(chk, 'TraceIntro', traces, 'views', fields=None, chunk=200)
     chk.traces += len(traces)
     for vv in bad:
-        c = by_id[vv['id']]
-        for b in vv['bad']:
-            v = {'id': vv['id'], 'clause': b['clause'], 'detail': b['detail']}
-            chk.violation(signature(c, v), {'verdict': v, 'kind': c['kind'], 'info': c['info'], 'project': c['p']})
+        report(chk, by_id[vv['id']], vv)
     chk.assumptions += [
         'run / alias targets are not checked for file names (they produce no file)',
         '"its compile statements" = the statements whose outputs the link statement of the target takes as explicit input '
@@ -314,8 +515,20 @@ def main(chk: Check) -> None:
         'when listed by any target',
         'the environment of a test is compared as "every introspected variable has that value in the process"; the '
         '.dat comparison uses EnvironmentVariables.get_env({}) on both sides',
-        'real `meson install` / `meson test` only on language-less --backend=none projects (no ninja binary to build targets)',
-        'install scripts, symlinks and empty directories of install.dat are outside intro-install_plan.json and not compared',
+        'there is no ninja binary: before `meson install --no-rebuild` of a ninja-backend project the harness creates the '
+        'outputs the statements of build.ninja promise (small text files); real `meson test` runs only on language-less '
+        '--backend=none projects; `meson test <selection>` on C projects runs with --wrapper /bin/true and a ninja stand-in '
+        'that records what it is asked to build',
+        'install scripts are not compared; empty directories are in no introspection file (taken from install.dat when the '
+        'installed tree is compared); symbolic links are compared through intro-installed.json (keyed by link name)',
+        'the SPELLING of an expression-located directory in the plan (placeholder or evaluated) is left open; what is '
+        'compared is the location after resolving placeholders through intro-buildoptions.json',
+        'executable(name_prefix:): the manual says the keyword is "only used for libraries" - with or without the prefix is '
+        'accepted by the generator model (the relation between introspection and build.ninja is exact in any case)',
+        'not generated: name_suffix: \'\' (rejected by meson), one name_suffix for both halves of a both-library, jar(), '
+        'aliases of a versioned library with a custom name_suffix are optional in the model',
+        'BuildFilesVsRead observes an identical second `meson setup` under strace (files named meson.build / meson.options / '
+        'meson_options.txt below the source directory opened for reading) and compares it with that run\'s own file',
         'corpus projects are configured with default options only; those that do not configure here are skipped',
     ]
 
@@ -323,7 +536,11 @@ def main(chk: Check) -> None:
 def replay(chk: Check, data: T.Dict[str, T.Any]) -> None:
     det = data['detail']
     info = det['info']
-    if det['kind'] == 'corpus':
+    if det['kind'] == 'corpus' and info.get('files') is not None:
+        job = {'id': det['verdict']['id'], 'kind': 'corpus', 'p': None, 'files': info['files'], 'views': True,
+               'name': info.get('name', ''), 'tag': info.get('tag', '')}
+        job.update(info.get('job', {}))
+    elif det['kind'] == 'corpus':
         dd = common.REPO / 'test cases' / 'common' / info['name']
         job = {'id': det['verdict']['id'], 'kind': 'corpus', 'p': None, 'srcdir': str(dd), 'name': dd.name, 'views': True}
     else:
@@ -335,9 +552,7 @@ def replay(chk: Check, data: T.Dict[str, T.Any]) -> None:
         raise MachineryError('replay: project does not configure: ' + c['info'].get('error', ''))
     bad = bv.judge_cases(chk, 'TraceIntro', [to_trace(c)], 'replay')
     for vv in bad:
-        for b in vv['bad']:
-            v = {'id': vv['id'], 'clause': b['clause'], 'detail': b['detail']}
-            chk.violation(signature(c, v), {'verdict': v, 'kind': c['kind'], 'info': c['info'], 'project': c['p']})
+        report(chk, c, vv)
 
 
 if __name__ == '__main__':
